@@ -88,3 +88,8 @@ claim('C02', 'exploration',
       'Only accepted pairs. 9 strategies whose descriptions do not fix the positions are covered by the relational part only. Harness barcode directory supplies synthetic whitelists for the aliases that cannot be loaded (10x, DamAndT, DamID2_scattered_10bp).',
       'property-based testing (Hypothesis) against a hand-written layout reference table + metamorphic single-base perturbation relation',
       'DESIGN.md section 4, C02')
+claim('C04', 'exploration',
+      'Exhaustive enumeration of the quality codec (all 94 phred characters and all pairs) plus Hypothesis-generated accepted pairs of all strategies with phred 33..126, library names of length 1..230 and five header variants: the header written by asFastq becomes a pysam read name, one QueryNameFlagger instance decodes the reads of a case (followed by a bulk-encoded read), and every encoded field, RQ against the original input qualities, SM, MI and the new read name are compared; over-long headers must be refused by the demultiplexer.',
+      'Header-safe library names; names reach the tagger unchanged; the leading @ of a FASTQ header is syntax. Trusted: pysam query_name length check.',
+      'exhaustive enumeration (codec) + property-based round-trip testing (Hypothesis) encode -> decode',
+      'DESIGN.md section 4, C04')
